@@ -556,7 +556,7 @@ pub fn gen_cases(opts: &Options, rng: &mut Rng) -> Vec<TdCase> {
     let mut cases: Vec<TdCase> = Vec::new();
 
     // (A) random legal histories + mutated totals
-    let n_hist = if thorough { 60_000 } else { 6_000 };
+    let n_hist = if thorough { 24_000 } else { 6_000 };
     for i in 0..n_hist {
         let n = match rng.below(10) {
             0 => 0,
@@ -566,7 +566,7 @@ pub fn gen_cases(opts: &Options, rng: &mut Rng) -> Vec<TdCase> {
             6 | 7 => rng.range(7, 40) as usize,
             8 => rng.range(41, if thorough { 400 } else { 120 }) as usize,
             _ => {
-                if thorough && i % 50 == 0 {
+                if thorough && i % 200 == 0 {
                     rng.range(401, 4000) as usize
                 } else {
                     rng.range(2, 12) as usize
